@@ -554,7 +554,9 @@ impl C05 {
         // both operands long, and one long operand against a short one in both orders, across 128 / 256 / 1024 / 2048 / 4096
         let mut sizes = vec![(129u32, 4u32), (128, 128), (4, 130), (200, 150), (257, 1), (300, 256), (64, 65), (3, 1025), (1025, 3), (1024, 1025), (2, 2049), (2049, 2), (4097, 1), (1, 4097),
             // the two sizes together exceed a 16-bit counter (each alone does not)
-            (65_535, 1), (1, 65_535), (65_534, 3)];
+            (65_535, 1), (1, 65_535), (65_534, 3),
+            // "0 if either set is empty" for every size of the other set, also beyond what a non-empty matrix can hold
+            (65_535, 0), (0, 65_535), (65_536, 0), (0, 65_536), (66_001, 0), (0, 65_790), (300, 0), (0, 0)];
         if tier == Tier::Thorough {
             sizes.extend([(699, 513), (1, 699), (255, 255), (512, 129), (1100, 1030), (2050, 1500), (4100, 600), (600, 4100), (1025, 1025)]);
         }
@@ -567,7 +569,7 @@ impl Property for C05 {
         "C05"
     }
     fn rule(&self) -> String {
-        "Generated: (a) raw r x c matrices, r,c in 0..=8 plus 1x40 and 40x1, f32 entries (finite, occasionally +infinity; in one case of four -infinity instead, in half of those a whole row or column / every score of one term; one case in eight is normalised: no score above 1, exactly 1.0 in every row but only in every third column) drawn from few values per matrix (ties among maxima), one case in six scaled by 10^e, e in -36..=33 (compared after dividing by the scale), through StandardCombiner::{FunSimAvg,FunSimMax,Bma}::calculate; integer matrices for rows()/cols()/dim()/len() against index arithmetic; (b) on a flat 40-term ontology: sequences of 1-6 pairs of term sets (sizes 0..=8, occasionally 31-40 members) and a user-supplied Similarity that looks pairs up in a generated 40x40 table (asymmetric or symmetrised), through GroupSimilarity::calculate and HpoSet::similarity; (c) the same sequence through one CachedSimilarity per combiner (second visit, transposed pair), every set also compared with itself as the same object on both sides, and term-level (a,b),(b,a),(a,b); (d) fixed-size sweeps on a flat 66 003-term ontology with an asymmetric similarity that is a function of the two ids: both sets long, or one long set against a short one in both orders, with sizes across 128 / 256 / 1024 / 2048 / 4096 (quick up to 65 535 x 1, thorough up to 2050 x 1500). Constant matrices with 2^k rows and columns (values from the whole finite range incl. the subnormal numbers) must give exactly that value. Oracle: the three definitions evaluated in f64 on M[i][j] = T[A_i][B_j] (ascending ids), tolerance 1e-4; 0 for an empty side; argument-order independence for symmetric tables (1e-6); cached results bit-identical to uncached. evaluations = combiner evaluations. Non-trivial = non-square non-empty matrix whose row-max mean differs from its column-max mean, or a set pair of unequal non-zero sizes; distinct by hash of the case.".into()
+        "Generated: (a) raw r x c matrices, r,c in 0..=8 plus 1x40 and 40x1, f32 entries (finite, occasionally +infinity; in one case of four -infinity instead, in half of those a whole row or column / every score of one term; one case in eight is normalised: no score above 1, exactly 1.0 in every row but only in every third column) drawn from few values per matrix (ties among maxima), one case in six scaled by 10^e, e in -36..=33 (compared after dividing by the scale), through StandardCombiner::{FunSimAvg,FunSimMax,Bma}::calculate; integer matrices for rows()/cols()/dim()/len() against index arithmetic; (b) on a flat 40-term ontology: sequences of 1-6 pairs of term sets (sizes 0..=8, occasionally 31-40 members) and a user-supplied Similarity that looks pairs up in a generated 40x40 table (asymmetric or symmetrised), through GroupSimilarity::calculate and HpoSet::similarity; (c) the same sequence through one CachedSimilarity per combiner (second visit, transposed pair), every set also compared with itself as the same object on both sides, and term-level (a,b),(b,a),(a,b); (d) fixed-size sweeps on a flat 66 003-term ontology with an asymmetric similarity that is a function of the two ids: both sets long, or one long set against a short one in both orders, with sizes across 128 / 256 / 1024 / 2048 / 4096 (quick up to 65 535 x 1, thorough up to 2050 x 1500), and an empty set against sets of 300 - 66 001 members in both orders. Constant matrices with 2^k rows and columns (values from the whole finite range incl. the subnormal numbers) must give exactly that value. Oracle: the three definitions evaluated in f64 on M[i][j] = T[A_i][B_j] (ascending ids), tolerance 1e-4; 0 for an empty side; argument-order independence for symmetric tables (1e-6); cached results bit-identical to uncached. evaluations = combiner evaluations. Non-trivial = non-square non-empty matrix whose row-max mean differs from its column-max mean, or a set pair of unequal non-zero sizes; distinct by hash of the case.".into()
     }
     fn assumptions(&self) -> Vec<String> {
         vec!["term similarities are finite, +infinity or -infinity, the two infinities never within one matrix (NaN is outside the domain: maxima are taken with '>', and inf - inf has no value)".into(), "f32 sums compared with f64 reference within 1e-4 relative".into()]
